@@ -89,5 +89,106 @@ def rigid_rule(run, ix, rule, prop):
                                        f"gram matrix is a multiple of the identity (uniform scale) are no longer refused, and Primitive.apply_transform keeps that scale inside "
                                        f"the stored transform while volume / area are computed from the unscaled parameters", key=key_of(f"{prop}-{rule}", "gram"))
     if decided == 0:
+        # the verdict may be computed in a helper: follow the calls and look at what reaches np.abs
+        it2 = Interp(ix)
+        seen = []
+
+        def _abs(it_, args, kw):
+            a_ = arr(args[0])
+            if isinstance(a_, np.ndarray):
+                seen.append(a_.copy())
+                return symbols_array(f"abs{len(seen)}_", a_.shape)
+            return sp.Abs(a_)
+
+        for nm_ in ("numpy.abs", "numpy.absolute", "numpy.fabs"):
+            it2.ext_stubs[nm_] = _abs
+        fr2 = Frame(it2, f, {par: M, **{p: sp.Symbol("eps", positive=True) for p in f.params[1:]}})
+        try:
+            tolerant_block(fr2, f.node.body, [])
+        except (_Return, Unsupported):
+            pass
+        for X in [a_ for a_ in seen if a_.shape == (3, 3)]:
+            ok = False
+            for r_ in refs:
+                for sgn in (1, -1):
+                    try:
+                        if all(sp.expand(sp.numer(sp.together(sp.sympify(X[i, j]) - sgn * r_[i, j]))) == 0 for i in range(3) for j in range(3)):
+                            ok = True
+                    except Exception:
+                        pass
+            decided += 1
+            run.obligation(rule, f.where, "the 3x3 array that reaches np.abs (through a helper) == R R^T - I (or R^T R - I) as polynomials", ok)
+            if not ok:
+                run.violation(rule, f.where, f"is_rigid compares a 3x3 array whose (0,0) entry is `{str(sp.simplify(sp.sympify(X[0, 0])))[:90]}` with its tolerance, not R R^T - I: matrices "
+                                             f"whose gram matrix is a multiple of the identity (uniform scale) are no longer refused", key=key_of(f"{prop}-{rule}", "gram"))
+    if decided == 0:
         run.instance(rule, f.where, f"is_rigid: no 3x3 verdict array of a recognised form (abs(X).max() / allclose(A, B)) - NOT decided ({skipped[:2]})", True, nontrivial=False)
         run.assume("is_rigid: verdict array not recognised")
+
+
+def fix_rigid_rule(run, ix, rule, prop):
+    """fix_rigid is documented for planar (3, 3) and spatial (4, 4) matrices: the deviation that decides whether it repairs is
+    measured on the linear block M[:d, :d], d = n - 1 - not on a fixed 3x3 corner, which for a planar matrix contains the
+    translation column (the matrix is then never repaired once |t| exceeds the threshold)."""
+    import numpy as np
+    import sympy as sp
+    from .alg import Frame, Interp, Unsupported, arr, symbols_array, tolerant_block, _Return
+
+    run.rule(rule, "fix_rigid measures the deviation from orthonormal on the linear block M[:d, :d] (d = n - 1) for both planar (3, 3) and spatial (4, 4) input: the array "
+                   "whose largest absolute entry is compared with the thresholds equals R R^T - I of that block")
+    try:
+        f = ix.func("trimesh.transformations:fix_rigid")
+    except Exception:
+        run.instance(rule, "trimesh/transformations.py", "fix_rigid not found - NOT decided", True, nontrivial=False)
+        run.assume("fix_rigid: anchor not found")
+        return
+    for n in (3, 4):
+        d = n - 1
+        M = symbols_array("m", (n, n))
+        it = Interp(ix)
+        seen = []
+
+        def _abs(it_, args, kw):
+            a = arr(args[0])
+            if isinstance(a, np.ndarray):
+                seen.append(a.copy())
+                return symbols_array(f"abs{len(seen)}_", a.shape)
+            return sp.Abs(a)
+
+        it.ext_stubs["numpy.abs"] = _abs
+        it.ext_stubs["numpy.absolute"] = _abs
+        it.ext_stubs["numpy.fabs"] = _abs
+        fr = Frame(it, f, {f.params[0]: M, **{p: sp.Symbol("dev", positive=True) for p in f.params[1:]}})
+        skipped = []
+        try:
+            tolerant_block(fr, f.node.body, skipped)
+        except _Return:
+            pass
+        except Unsupported as e:
+            skipped.append(str(e))
+        R = M[:d, :d]
+        I_ = np.array(sp.eye(d).tolist(), dtype=object)
+        refs = [np.dot(R, R.T) - I_, np.dot(R.T, R) - I_]
+        sq = [a for a in seen if a.ndim == 2 and a.shape[0] == a.shape[1]]
+        where = f.where
+
+        def same(A, B):
+            if A.shape != B.shape:
+                return False
+            for sgn in (1, -1):
+                if all(sp.expand(sp.sympify(A[i, j]) - sgn * B[i, j]) == 0 for i in range(A.shape[0]) for j in range(A.shape[1])):
+                    return True
+            return False
+
+        if not sq:
+            run.instance(rule, where, f"fix_rigid on a symbolic ({n}, {n}) matrix: no square array reaches np.abs - NOT decided ({skipped[:2]})", True, nontrivial=False)
+            run.assume(f"fix_rigid ({n}x{n}): deviation array not recognised")
+            continue
+        ok = any(same(a, r) for a in sq for r in refs)
+        run.obligation(rule, where, f"({n}, {n}) input: the measured array is R R^T - I of the {d}x{d} linear block (shapes seen: {[a.shape for a in sq]})", ok)
+        if not ok:
+            shp = sq[0].shape
+            run.violation(rule, where, f"for a ({n}, {n}) matrix fix_rigid measures the deviation on a {shp[0]}x{shp[1]} array that is not R R^T - I of the {d}x{d} linear block"
+                          + (": for a planar transform the fixed 3x3 corner is the whole matrix, translation column included, so the measured deviation is about |t| and a nearly "
+                             "rigid planar matrix with a translation beyond the threshold is returned unrepaired" if n == 3 and shp == (3, 3) else ""),
+                          key=key_of(f"{prop}-{rule}", n))
